@@ -84,6 +84,44 @@ func runLens(c *core.Ctx, tl, tc *core.Trace) {
 	}
 }
 
+// the cases of "lens" / "counts" read back over a connection: the element under test is cut inside its length
+// cell, inside its body, before its last byte, and together with the scalars around it
+func runLensNet(c *core.Ctx, t *core.Trace) {
+	lens, counts := lenCases()
+	kinds := []int{segInField, segEdges, segTwo, segRand, segOne}
+	one := func(gen string, cas int, lc lenCase) {
+		if !c.Want(gen, cas) {
+			return
+		}
+		r := c.Rng(gen, cas)
+		skip := r.Intn(4) != 0 // (drawn in every case: a replay re-generates the same history)
+		if lc.n > 4096 && !c.Thorough() && c.OnlyGen == "" && skip {
+			return // the quick tier draws a quarter of the large cases per run (volume; which ones depends on the seed)
+		}
+		items := []item{
+			genItem(r, scalarOps[r.Intn(len(scalarOps))], false),
+			genItemN(r, lc.op, false, lc.n, lc.nilMode),
+			genItem(r, scalarOps[r.Intn(len(scalarOps))], false),
+		}
+		m := mode{net: kinds[r.Intn(len(kinds))]}
+		if lc.n <= 300 && cas%3 == 2 {
+			m.alias = true
+			m.late = []item{genItem(r, scalarOps[r.Intn(len(scalarOps))], false)}
+		}
+		streamM(c, t, gen, cas, items, m, r)
+	}
+	if c.WantGen("netlens") {
+		for cas, lc := range lens {
+			one("netlens", cas, lc)
+		}
+	}
+	if c.WantGen("netcounts") {
+		for cas, lc := range counts {
+			one("netcounts", cas, lc)
+		}
+	}
+}
+
 // ---- static helpers ------------------------------------------------------------------------------
 
 type staticKind struct {
